@@ -17,8 +17,9 @@
 (*   reqbody   bytes of request body (0 = none)                            *)
 (*   chunked   ChunkedBody option                                          *)
 (*   transport "response" | "error"                                        *)
-(*   chain     number of redirects (302 with Location) before the final    *)
-(*             response                                                    *)
+(*   chain     number of redirects (status rstatus with Location) before   *)
+(*             the final response; 307/308 make the client send the same   *)
+(*             method and body again, 301/302/303 turn a POST into a GET   *)
 (*   policy    "nofollow" | "n0" | "n1" | "n10"   Redirects option         *)
 (*   status    final status code                                           *)
 (*   size      bytes of the final response body                            *)
@@ -32,7 +33,7 @@ Min(a, b) == IF a <= b THEN a ELSE b
 PolicyN(p) == IF p = "n0" THEN 0 ELSE IF p = "n1" THEN 1 ELSE 10
 
 Base == [name |-> "n", tgt |-> "ok", build |-> "ok", hdr |-> "none", reqbody |-> 0, chunked |-> FALSE,
-         transport |-> "response", chain |-> 0, policy |-> "n10", status |-> 200, size |-> 1, fault |-> -1, maxbody |-> -1]
+         transport |-> "response", chain |-> 0, policy |-> "n10", status |-> 200, size |-> 1, fault |-> -1, maxbody |-> -1, rstatus |-> 302]
 
 Statuses == {100, 199, 200, 204, 302, 399, 400, 404, 500, 599}
 
@@ -50,13 +51,18 @@ ResponseCases ==
     {[Base EXCEPT !.chain = ch, !.policy = p, !.status = st, !.size = sz, !.fault = f, !.maxbody = mb] :
         ch \in 0..2, p \in {"nofollow", "n0", "n1", "n10"}, st \in Statuses, sz \in {0, 1, 5}, f \in {-1, 0, 2}, mb \in {-1, 0, 2, 5, 9}}
 
-Cases == RequestCases \cup FailCases \cup ResponseCases
+\* every kind of redirect, with and without a request body
+RedirectCases ==
+    {[Base EXCEPT !.chain = ch, !.rstatus = rs, !.reqbody = rb, !.policy = p, !.chunked = k] :
+        ch \in {1, 2}, rs \in {301, 302, 303, 307, 308}, rb \in {0, 3}, p \in {"n10", "n1", "nofollow"}, k \in BOOLEAN}
+
+Cases == RequestCases \cup FailCases \cup ResponseCases \cup RedirectCases
 
 (*----------------------------- the case analysis -----------------------------*)
 \* which response ends the exchange, if any
 RedirectStops(c) == c.policy # "nofollow" /\ c.chain > PolicyN(c.policy)      \* "stopped after n redirects"
 ShownRedirect(c) == c.policy = "nofollow" /\ c.chain > 0                       \* the first 302 itself is the result
-FinalStatus(c) == IF ShownRedirect(c) THEN 302 ELSE c.status
+FinalStatus(c) == IF ShownRedirect(c) THEN c.rstatus ELSE c.status
 FinalSize(c) == IF ShownRedirect(c) THEN 0 ELSE c.size                         \* the fake transport's redirects have no body
 FaultHits(c) == ~ShownRedirect(c) /\ c.fault >= 0 /\ c.fault < c.size           \* the read error is reached (everything is drained)
 
@@ -77,6 +83,8 @@ HitOK(c, o) ==
             /\ o.bytes_in = Captured(c)
             /\ o.bytes_out = c.reqbody
             /\ (o.err_empty <=> Success(FinalStatus(c)))           \* error empty exactly for a status in [200,400)
+            \* a followed 307/308 sends the body again, a followed 301/302/303 of this POST is a GET without one
+            /\ (c.chain > 0 /\ ~ShownRedirect(c) => o.last_req_body_len = (IF c.rstatus \in {307, 308} THEN c.reqbody ELSE 0))
        ELSE /\ ~o.err_empty                                        \* a failed exchange always has an error
             /\ ~Success(o.code)                                    \* ... and never a success status
     \* the request that reached the transport (the first one)
